@@ -197,6 +197,28 @@ def run(prog, ctx):
                         f.id, a[2], cal.rsplit("::", 1)[-1]), f.id, site["span"])
                 else:
                     res.discharged += 1
+    # positional pairing of two bit matrices (zip) ignores the row fold: allowed only under an lg_k equality guard
+    for f in ufns:
+        s = Sym(prog, f, ifconv=False)
+        for b, site in f.calls():
+            if (site.get("callee") or "").rsplit("::", 1)[-1] != "zip" or len(site["args"]) != 2:
+                continue
+            a0 = C.resolve_var(prog, f, s.at(b, "t").operand(site["args"][0]), s)
+            a1 = C.resolve_var(prog, f, s.at(b, "t").operand(site["args"][1]), s)
+            mut_side = sym.contains(a0, lambda t: t[0] == "call" and t[1].rsplit("::", 1)[-1] in ("iter_mut", "deref_mut")) or sym.contains(a1, lambda t: t[0] == "call" and t[1].rsplit("::", 1)[-1] in ("iter_mut", "deref_mut"))
+            from_state = sym.contains(a0, lambda t: t[0] == "field" and t[2] in ("state",)) or sym.contains(a1, lambda t: t[0] == "field" and t[2] in ("state",)) or \
+                sym.contains(a0, lambda t: t[0] == "variant") or sym.contains(a1, lambda t: t[0] == "variant")
+            from_src = sym.contains(a0, lambda t: t[0] == "call" and "build_bit_matrix" in t[1]) or sym.contains(a1, lambda t: t[0] == "call" and "build_bit_matrix" in t[1]) or \
+                sym.contains(a0, lambda t: t[0] == "param" and t[1] >= 2) or sym.contains(a1, lambda t: t[0] == "param" and t[1] >= 2)
+            if not (mut_side and from_state and from_src):
+                continue
+            res.obligations += 1
+            fx = s.cmp_facts_at(b)
+            guarded = any(x[0] == "Eq" and len(x) == 3 and lgk_like(x[1]) and lgk_like(x[2]) for x in fx)
+            if guarded:
+                res.discharged += 1
+            else:
+                res.violate("C06.O", "C06.O|%s|zip" % f.id, "%s pairs the rows of the union's matrix with the rows of a source matrix by position (zip) without a guard that both have the same lg_k: source rows beyond the union's size are dropped instead of folded" % f.id, f.id, site.get("span"))
     res.rule("C06.O.calls", n_c, 5, "or_* call sites")
     wt = prog.fns.get("cpc::union::walk_table_updating_sketch")
     if wt is not None:
